@@ -243,3 +243,80 @@ pub fn run_pin(r: &mut Runner, prop: &'static str) {
     );
     r.require(!clean || (used >= 4 && ops_ok >= 40), "the deployed-bytes comparison must build most stores and see operations succeed");
 }
+
+/// Batches written by releases that did not yet count the requests of a batch carry no
+/// `unstake_requests_count` (the contract's queries have a fallback for that). Such a pending batch with open
+/// requests gains a new requester, is submitted, receives its tokens and is withdrawn by everybody in
+/// three orders: every withdrawal must pay floor(received x own / total) to the caller and nothing else.
+pub fn counterless_batches(r: &mut Runner, prop: &'static str) {
+    let mut n = 0u64;
+    let mut paid_ok = 0u64;
+    let mut vs: V = vec![];
+    for k in [K::k0(), K::k1()] {
+        for order in 0..3usize {
+            let Some(mut s) = try_seed(|| {
+                let mut sc = Script::resumed(&k).run(stake(&u(1), 1_000)).run(stake(&u(2), 700)).run(stake(&u(3), 300));
+                sc = sc.with(|s| rewards(s, 90));
+                sc = sc.with(|s| unstake(s, &u(1), 200)).with(|s| unstake(s, &u(2), 100));
+                sc.done()
+            }) else {
+                continue;
+            };
+            // rewrite every stored batch without the counter
+            let keys: Vec<Vec<u8>> = s.w.kv.m.keys().cloned().collect();
+            let mut stripped = 0;
+            for key in keys {
+                let val = s.w.kv.m[&key].clone();
+                if let Ok(Value::Object(mut o)) = serde_json::from_slice::<Value>(&val) {
+                    if o.remove("unstake_requests_count").is_some() && o.contains_key("batch_total_liquid_stake") {
+                        s.w.kv.m.insert(key, Arc::new(serde_json::to_vec(&Value::Object(o)).unwrap()));
+                        stripped += 1;
+                    }
+                }
+            }
+            if stripped == 0 {
+                r.notes.push("no stored batch carries unstake_requests_count on this tree: the counter-less variant is not applicable".into());
+                return;
+            }
+            let case = json!({"config": k.name, "withdraw_order": order});
+            let mut script: Vec<Box<dyn Fn(&Sim) -> Act>> = vec![
+                Box::new(|s| unstake(s, &u(3), 40)),
+                Box::new(|s| advance(pending_due(s).max(s.w.time + 1))),
+                Box::new(|_| submit(&p20("x"))),
+                Box::new(|s| advance(s.m.batches[&1].due.max(s.w.time + 1))),
+                Box::new(|s| deliver(s, 1, s.m.batches[&1].expected.unwrap_or(1))),
+            ];
+            let who: [[u8; 3]; 3] = [[3, 1, 2], [1, 2, 3], [2, 3, 1]];
+            for w in who[order] {
+                script.push(Box::new(move |_| withdraw(&u(w), 1)));
+            }
+            for (i, step) in script.iter().enumerate() {
+                let a = step(&s);
+                let pre = s.clone();
+                let ap = s.apply(&a);
+                n += 1;
+                if !ap.out.ok {
+                    vs.push((viol(prop, "counterless_batch.step_failed", format!("{} step {i} {} on a store whose batches carry no request counter failed: {:?}", k.name, act_label(&a), ap.out.err)), case.clone()));
+                    break;
+                }
+                if let Act::Exec { sender, msg: staking::msg::ExecuteMsg::Withdraw { batch_id }, .. } = &a {
+                    let b = &pre.m.batches[batch_id];
+                    let own = b.requests.get(sender).copied().unwrap_or(0);
+                    let want = mwsim::arith::mul_div(b.received.unwrap_or(0), own, b.total).unwrap_or(0);
+                    let got = s.w.bal(sender, &sd()) - pre.w.bal(sender, &sd());
+                    if got != want {
+                        vs.push((
+                            viol(prop, "counterless_batch.withdraw_pays_other_requests", format!("{}: Withdraw by {sender} from batch {batch_id} (own request {own} of {} LST, {} received) paid {got}, own share is {want}", k.name, b.total, b.received.unwrap_or(0))),
+                            case.clone(),
+                        ));
+                        break;
+                    }
+                    paid_ok += 1;
+                }
+            }
+        }
+    }
+    let clean = vs.is_empty();
+    r.grid("legacy batches without request counter: new requester, submit, receive, all withdraw (3 orders x 2 configs)", n, 2, paid_ok, n - paid_ok.min(n), vec![json!({"config": "K0", "withdraw_order": 0})], vs);
+    r.require(!clean || paid_ok >= 18, "the counter-less batch scenario must reach its withdrawals");
+}
